@@ -46,7 +46,6 @@ Variables A B : csr E.
 Hypothesis HA : @Inv E A.
 Hypothesis HB : @Inv E B.
 Hypothesis Hd : ccol A = crow B.
-Hypothesis Hg : ccol B <= ccol A.
 Hypothesis Hsz : crow A * ccol B < 2 ^ 31.
 Notation zero := (ezero Ops).
 Notation items := (items Ops A B).
@@ -108,6 +107,8 @@ Lemma psum_lt i : i <= crow A -> psum i < 2 ^ 31.
 Proof. apply psum_small; assumption. Qed.
 Lemma colA_lt : ccol A < 2 ^ 31.
 Proof. apply (colA_small A HA). Qed.
+Lemma colB_lt : ccol B < 2 ^ 31.
+Proof. apply (colB_small B HB). Qed.
 Lemma rowA_lt : crow A < 2 ^ 31.
 Proof. apply (rowA_small A HA). Qed.
 Lemma wfA' : @wf E A. Proof. apply HA. Qed.
@@ -221,12 +222,12 @@ Qed.
 (* ---------- the accumulation loops of one row ---------- *)
 Definition Q2 (L : list (N * E)) (st : list Z * list E * Z * N) : Prop :=
   let '(next, sums, head, len) := st in
-  lenN next = ccol A /\ lenN sums = ccol A /\
+  lenN next = ccol B /\ lenN sums = ccol B /\
   (forall k, In k (map fst L) -> k < ccol B) /\
   chain next head (disc (map fst L)) /\
-  (forall k, k < ccol A -> ~ In k (map fst L) -> nthN next k (-1)%Z = (-1)%Z) /\
+  (forall k, k < ccol B -> ~ In k (map fst L) -> nthN next k (-1)%Z = (-1)%Z) /\
   len = lenN (disc (map fst L)) /\
-  (forall k, k < ccol A -> nthN sums k zero = csum k L).
+  (forall k, k < ccol B -> nthN sums k zero = csum k L).
 
 Lemma p2_inner jj L st :
   nthN (cj A) jj 0 < crow B ->
@@ -258,7 +259,7 @@ Proof.
   rewrite (getN_ok next k (-1)%Z) by lia. cbn [bind].
   assert (Hin : forall c, In c (map fst (L ++ [(k, x)])) -> c < ccol B).
   { intros c. rewrite map_app, in_app_iff. cbn [map fst In]. intros [H|[<-|[]]]; auto. }
-  assert (Hsum : forall c, c < ccol A ->
+  assert (Hsum : forall c, c < ccol B ->
             nthN (updn (N.to_nat k) sums (eadd Ops (nthN sums k zero) x)) c zero = csum c (L ++ [(k, x)])).
   { intros c Hc. rewrite nthN_updn by lia. rewrite (csum_snoc Ops Hsr). cbn [fst snd].
     destruct (N.eqb_spec c k) as [->|Hne].
@@ -289,7 +290,7 @@ Proof.
     assert (Hb : lenN (disc (map fst (L ++ [(k, x)]))) <= ccol B).
     { apply nodup_bounded; [apply disc_nodup|]. intros c Hc. rewrite disc_in in Hc. apply Hin. exact Hc. }
     rewrite Hdisc, lenN_cons in Hb.
-    pose proof colA_lt.
+    pose proof colB_lt.
     rewrite uadd_small by lia.
     eexists. split; [reflexivity|].
     unfold Q2. rewrite Hdisc.
@@ -344,9 +345,9 @@ Qed.
 Definition R2 (i : N) (st : list N * list N * list E * list Z * list E * N) : Prop :=
   let '(p, oj, ox, next, sums, nnz) := st in
   lenN p = crow A + 1 /\ lenN oj = psum (crow A) /\ lenN ox = psum (crow A) /\
-  lenN next = ccol A /\ lenN sums = ccol A /\
-  (forall k, k < ccol A -> nthN next k (-1)%Z = (-1)%Z) /\
-  (forall k, k < ccol A -> nthN sums k zero = zero) /\
+  lenN next = ccol B /\ lenN sums = ccol B /\
+  (forall k, k < ccol B -> nthN next k (-1)%Z = (-1)%Z) /\
+  (forall k, k < ccol B -> nthN sums k zero = zero) /\
   nnz = psum2 i /\
   (forall r, r <= i -> nthN p r 0 = psum2 r) /\
   (forall t, t < nnz -> nthN oj t 0 < ccol B) /\
@@ -356,14 +357,13 @@ Definition R2 (i : N) (st : list N * list N * list E * list Z * list E * N) : Pr
 
 Theorem pass2_spec (C0 : csr E) :
   lenN (cp C0) = crow A + 1 -> lenN (cj C0) = psum (crow A) -> lenN (cx C0) = psum (crow A) ->
-  exists p2 oj ox,
-    matmat_pass2 Ops A B C0 = Ok (Build_csr p2 oj ox (crow C0) (ccol C0)) /\
-    lenN p2 = crow A + 1 /\ lenN oj = psum (crow A) /\ lenN ox = psum (crow A) /\
+  exists p2 j2 x2,
+    matmat_pass2 Ops A B C0 = Ok (Build_csr p2 j2 x2 (crow C0) (ccol C0)) /\
+    lenN p2 = crow A + 1 /\ lenN j2 = psum2 (crow A) /\ lenN x2 = psum2 (crow A) /\
     (forall r, r <= crow A -> nthN p2 r 0 = psum2 r) /\
-    (forall t, t < psum2 (crow A) -> nthN oj t 0 < ccol B) /\
-    (forall r t, r < crow A -> (t < length (em r))%nat ->
-       nthN oj (psum2 r + N.of_nat t) 0 = fst (nth t (em r) (0, zero)) /\
-       nthN ox (psum2 r + N.of_nat t) zero = snd (nth t (em r) (0, zero))).
+    (forall i, i < crow A ->
+       Permutation (segN Ops j2 x2 (psum2 i) (psum2 (i + 1))) (em i) /\
+       srt N.le (segN Ops j2 x2 (psum2 i) (psum2 (i + 1)))).
 Proof.
   intros HC1 HC2 HC3. unfold matmat_pass2.
   rewrite setN_ok by lia. cbn [bind].
@@ -377,7 +377,7 @@ Proof.
     + intros r Hr. replace r with 0 by lia. rewrite nthN_updn by lia. reflexivity.
     + intros t Ht. lia.
   - intros i [[[[[p oj] ox] next] sums] nnz] _ Hi (Ra & Rb & Rc & Rd & Re & Rf & Rg & Rh & Ri & Rj & Rk).
-    pose proof rowA_lt as Hrow. pose proof colA_lt as Hcol.
+    pose proof rowA_lt as Hrow. pose proof colA_lt as Hcol. pose proof colB_lt as HcolB.
     rewrite (getN_p A i wfA') by lia. cbn [bind].
     rewrite uadd_small by lia.
     rewrite (getN_p A (i + 1) wfA') by lia. cbn [bind].
@@ -430,8 +430,32 @@ Proof.
         destruct (O1 _ Hlt) as (-> & ->). apply Rk; [lia|exact Ht].
   - rewrite Hrun. destruct st' as [[[[[p2 oj] ox] next] sums] nnz]. cbn [bind].
     destruct HR as (Ra & Rb & Rc & _ & _ & _ & _ & Rh & Ri & Rj & Rk).
-    exists p2, oj, ox. split; [reflexivity|]. split; [assumption|]. split; [assumption|].
-    split; [assumption|]. split; [assumption|]. split; [rewrite <- Rh; assumption|assumption].
+    pose proof (psum2_le (crow A)) as Hle. pose proof (psum_lt (crow A) ltac:(lia)) as Hn1.
+    pose proof rowA_lt as Hrow.
+    destruct (sort_indices_gen Ops p2 (resizeN oj nnz 0) (resizeN ox nnz zero) (crow A))
+      as (j2 & x2 & Hs & Lj & Lx & Hperm & _).
+    + exact Ra.
+    + intros i Hi. rewrite !Ri by lia. rewrite psum2_succ. lia.
+    + rewrite Ri by lia. rewrite lenN_resizeN. lia.
+    + rewrite !lenN_resizeN. reflexivity.
+    + rewrite lenN_resizeN. lia.
+    + exact Hrow.
+    + rewrite Hs. cbn [bind]. rewrite lenN_resizeN in Lj. rewrite lenN_resizeN in Lx.
+      exists p2, j2, x2. split; [reflexivity|]. split; [exact Ra|].
+      split; [lia|]. split; [lia|]. split; [exact Ri|].
+      intros i Hi. destruct (Hperm i Hi) as (P1 & P2). rewrite !Ri in P1, P2 by lia.
+      split; [|exact P2]. eapply Permutation_trans; [exact P1|].
+      match goal with |- Permutation ?l _ => assert (Hseg : l = em i) end; [|rewrite Hseg; apply Permutation_refl].
+      unfold segN. rewrite psum2_succ.
+      replace (psum2 i + cnt2 i - psum2 i) with (cnt2 i) by lia.
+      unfold cnt2. rewrite lenN_nat.
+      apply (map_Nseq_eq _ _ _ (0, zero)).
+      intros t Ht.
+      assert (Hlt : psum2 i + N.of_nat t < nnz).
+      { pose proof (psum2_succ i). pose proof (psum2_mono (i + 1) (crow A) ltac:(lia)).
+        unfold cnt2, lenN in *. lia. }
+      rewrite !nthN_resizeN by lia.
+      destruct (Rk i t Hi Ht) as (-> & ->). symmetry. apply surjective_pairing.
 Qed.
 
 End Pass2.
